@@ -1090,6 +1090,8 @@ class Sim(object):
         self.sig = []
         self.uncovered = []
         self.pairs = set()
+        self.asked = []         # questions already answered in this epoch
+        self.world_epoch = 0
 
     def count(self, key, n=1):
         self.counters[key] = self.counters.get(key, 0) + n
@@ -1378,6 +1380,9 @@ class Sim(object):
         classes = lib_classes()
         for step_no, step in enumerate(trace["steps"]):
             if step["k"] == "world":
+                self.reask(step_no, 10)
+                self.asked = []
+                self.world_epoch += 1
                 facade.apply(step["act"])
                 self.count("fault.world_" + step["act"][0])
                 self.sig.append("world:" + step["act"][0])
@@ -1437,6 +1442,13 @@ class Sim(object):
             self.sig.append("%d:%s%s" % (step.get("c", 0), name,
                                          "!" if raised else ""))
             self.results.append([step_no, out])
+            if out != "HANG":
+                if step["a"] and step["a"][0] in self.pool and isinstance(
+                        ops[0], data.TimeRecurrence):
+                    # the same value was asked something before: ask again
+                    self.reask(step_no, 2, about=step["a"][0])
+                self.asked.append([step_no, name, list(step["a"]),
+                                   list(step["s"]), out])
             if isinstance(res, classes):
                 self.admit(step["id"], res, step["a"])
             elif isinstance(res, (list, tuple)):
@@ -1445,8 +1457,42 @@ class Sim(object):
                         self.admit("%s.%d" % (step["id"], j), item,
                                    step["a"])
             self.check_all(step_no, name, step["a"], raised)
+        self.reask(len(trace["steps"]), 25)
         self.check_observed(list(self.order), len(trace["steps"]), "end")
         return self
+
+    def reask(self, step_no, limit, about=None):
+        """Observable state includes the answers to questions that take
+        arguments: a question answered earlier (same operation, same
+        operands, same world) is asked again and must get the same answer
+        -- a value that remembers something about a query in a place the
+        no-argument view does not show is caught here."""
+        import random
+        cands = [q for q in self.asked if about is None or (
+            q[2] and q[2][0] == about)]
+        if not cands:
+            return
+        rng = random.Random(self.trace["sample_salt"] * 31 + step_no)
+        picks = cands if len(cands) <= limit else rng.sample(cands, limit)
+        for q_step, name, operand_names, scalars, answer in picks:
+            if any(o not in self.pool for o in operand_names):
+                continue
+            ops = [self.pool[o] for o in operand_names]
+            try:
+                with kernel.guarded():
+                    out = canon_plain(self.apply(name, ops, scalars))
+            except kernel.Hang:
+                continue
+            except kernel.HarnessError:
+                raise
+            except Exception as exc:
+                out = "EXC:%s:%s" % (type(exc).__name__, str(exc)[:120])
+            self.count("reasked")
+            if out != answer:
+                self.violate("answer_changed", name, step_no,
+                             asked_at_step=q_step, operands=operand_names,
+                             scalars=scalars, before=answer, after=out)
+        self.check_all(step_no, "reask", [], False)
 
 
 def execute(trace):
